@@ -92,7 +92,9 @@ def summarise(data):
             if q is not None:
                 quant = {"scale": [float(np.float32(q.Scale(k))).hex() for k in range(q.ScaleLength())],
                          "zero_point": [int(q.ZeroPoint(k)) for k in range(q.ZeroPointLength())],
-                         "qdim": int(q.QuantizedDimension())}
+                         "qdim": int(q.QuantizedDimension()),
+                         "min": [float(np.float32(q.Min(k))).hex() for k in range(q.MinLength())],
+                         "max": [float(np.float32(q.Max(k))).hex() for k in range(q.MaxLength())]}
             d = bufs[t.Buffer()] if t.Buffer() < len(bufs) else b""
             tensors.append({"idx": ti, "name": (t.Name() or b"").decode("latin1"),
                             "shape": [int(t.Shape(k)) for k in range(t.ShapeLength())], "type": TT_NAME.get(t.Type(), str(t.Type())),
